@@ -135,6 +135,18 @@ start :: fn do
     pr(make(2)(1))
 end
 ''',
+"call_of_a_field_function_through_a_parameter": '''
+Foo :: blob {
+    f: fn int -> int,
+    n: int,
+}
+use_it :: fn a: Foo -> int do
+    ret a.f(1) + a.n
+end
+start :: fn do
+    pr(use_it(Foo { f: fn v: int -> int do ret v + 1 end, n: 2 }))
+end
+''',
 "qualified_type_paths": '''
 use shapes
 use shapes as sh
